@@ -101,3 +101,17 @@ Print Assumptions C07_ctx_wakes_guarded.
 Theorem C07_ctx_wakes_unlocked_helper_refuted : lost_cancel_deque false /\ lost_consumer true false.
 Proof. exact (conj deque_ctx_unlocked_helper_refuted (queue_consumers_unlocked_helper_refuted true)). Qed.
 Print Assumptions C07_ctx_wakes_unlocked_helper_refuted.
+
+(* The exit broadcast of a waiter is part of the cascade WHATEVER its context (seeded change C07-ind2-3 skipped the
+   watcher for context.Background()/TODO()).  The cascade theorem covers consumers whose context never ends: it
+   holds for all runs without any context-end step, for either helper shape ... *)
+Theorem C07_cascade_noncancellable : forall hl, queue_consumers_stmt true hl never_ctx_end.
+Proof. exact queue_consumers_noncancellable. Qed.
+Print Assumptions C07_cascade_noncancellable.
+
+(* ... and the variant whose (non-cancellable) waiters have no watcher - runs in which no context ends and no released
+   helper ever broadcasts - violates it: two parked consumers, a burst of two Adds, one Signal; the woken consumer
+   takes one item and leaves silently; the other stays parked on a non-empty queue with nothing runnable. *)
+Theorem C07_cascade_needs_exit_broadcast_refuted : lost_consumer_without_exit_broadcast.
+Proof. exact cascade_needs_exit_broadcast. Qed.
+Print Assumptions C07_cascade_needs_exit_broadcast_refuted.
